@@ -19,7 +19,9 @@ META = {
     "engine": "data",
     "text": "Redact.tla enumerates every claims tree that is a spine of containers (objects and lists) of depth 1..4 with "
             "an optional sibling leaf at every level and a key class (sensitive exact / sensitive as substring / case "
-            "variant / neutral) at every object level (2,532 trees to depth 3 quick, 35,460 to depth 4 thorough), with the oracle 'a leaf is hidden iff "
+            "variant / neutral) at every object level, optionally with one sub-object referenced twice, plus a few spines of depth "
+            "5-6 (7,086 trees quick, depth 3; about 81,000 thorough, depth 4), logged under the configurations of "
+            "Redact!Configs (redactor mode x logger level x dict/list vs Mapping/tuple x authenticated x formatter), with the oracle 'a leaf is hidden iff "
             "some key on its path is sensitive; the outermost sensitive key stays visible with a redacted value', and "
             "checks seven table-sanity invariants (incl. agreement with key-by-key redaction on flat claims) and refutes the faithful variant (Dev_TopLevelOnly) on the model.  Each tree is "
             "concretised with real claim names from the sensitive list and a unique marker per leaf (strings and "
